@@ -50,78 +50,25 @@ def cfg_ops(o, k):
 def has_empty_match(o):
     for t in (o.get("tabA") or []) + (o.get("tabB") or []):
         if t != "null":
-            i, e = t.split("-")
+            i, e = t.replace("#g", "").split("/")[0].split("-")
             if i == e:
                 return True
     return False
 
 
-def explain(case, rec, exp):
-    """per-op explanation of a run case whose engine tables agree and whose matches are all well-formed:
-    the set of fast-path findings that account for EVERY op on which the four configurations differ;
-    None if some difference is not of a recorded shape"""
-    if case.get("kind") != "run":
+def span(t):
+    """(index, end) of a table entry text, None for null"""
+    if t == "null":
         return None
-    o, code = obs_of(rec), code_of(exp)
-    if not o or code < 0 or code & (1 | 2 | 128) or not code & 64:
-        return None
-    cf = [cfg_ops(o, k) for k in range(4)]
-    f = case.get("flags", "")
-    if any(c is None for c in cf):
-        # observation text was truncated: fall back on the classification code alone - every deviating fast
-        # configuration is reproduced by the transcribed fast path, generic configurations agree with S
-        ok = not code & (8 | 32) and (not code & 4 or code & 256) and (not code & 16 or code & 512) and code & (4 | 16)
-        if ok and "g" in f and "y" in f and has_empty_match(o):
-            return {"F202"}
-        return None
-    if len({len(c) for c in cf}) != 1 or len(cf[0]) != len(case.get("ops", [])):
-        return None
-    empty = has_empty_match(o)
-    re2 = o.get("engA", "").startswith("re2")
-    nonascii = not is_ascii(units(case, "subj"))
-    out = set()
-    for i, op in enumerate(case["ops"]):
-        r = [c[i] for c in cf]
-        if r[0] == r[1] == r[2] == r[3]:
-            continue
-        k = op["o"]
-        if k in ("match", "replace", "replaceFn") and "g" in f and "y" not in f and empty and re2 \
-                and r[1] == r[2] == r[3]:
-            out.add("F201")
-        elif k in ("match", "replace", "replaceFn") and "g" in f and "y" in f and empty and r[1] == r[3]:
-            out.add("F202")
-        elif k == "split" and empty:
-            out.add("F203")
-        elif k in ("replace", "replaceFn") and "g" not in f and nonascii and ("y" in f or "u" in f) and r[1] == r[3]:
-            out.add("F204")
-        else:
-            return None
-    return out or None
+    i, e = t.replace("#g", "").split("/")[0].split("-")
+    return int(i), int(e)
 
 
-def p_re2_findall_drops_adjacent_empty(case, rec, exp):
-    return "F201" in (explain(case, rec, exp) or ())
-
-
-def p_sticky_global_fast(case, rec, exp):
-    return "F202" in (explain(case, rec, exp) or ())
-
-
-def p_split_fast_rx2_list(case, rec, exp):
-    return "F203" in (explain(case, rec, exp) or ())
-
-
-def p_replace_nonglobal_fast(case, rec, exp):
-    return "F204" in (explain(case, rec, exp) or ())
-
-
-def p_flags_dup_u(case, rec, exp):
-    if case.get("kind") != "flags":
-        return False
-    f = case.get("flags", "")
-    rest = f.replace("u", "")
-    ok_rest = all(c in "gimsy" for c in rest) and len(set(rest)) == len(rest)
-    return f.count("u") >= 2 and ok_rest and '"result":"ok"' in (rec.get("obs") or "") and code_of(exp) == 257
+def caps(t):
+    t = t.replace("#g", "")
+    if t == "null" or "/" not in t:
+        return []
+    return t.split("/")[1].split(",")
 
 
 ANNEXB_UNDER_U = {"a{1", "a{", "}", "]", "\\c", "\\-"}
@@ -142,9 +89,13 @@ def p_syntax_dup_group_re2(case, rec, exp):
 
 
 def p_replace_sticky_beyond_panic(case, rec, exp):
-    if case.get("kind") != "run" or not (rec.get("obs") or "").startswith("HOSTPANIC: runtime error: slice bounds out of range"):
-        return False
+    ob = rec.get("obs") or ""
     f = case.get("flags", "")
+    # ASCII subject: Substring past the end ("slice bounds out of range"); non-ASCII subject or u flag: a rune /
+    # position slice is indexed past its end ("index out of range")
+    if case.get("kind") != "run" or not (ob.startswith("HOSTPANIC: runtime error: index out of range")
+                                          or ob.startswith("HOSTPANIC: runtime error: slice bounds out of range")):
+        return False
     if "y" not in f or "g" in f or case.get("start", 0) <= len(units(case, "subj")):
         return False
     for op in case.get("ops", []):
@@ -161,60 +112,157 @@ def run_case(case, rec, exp):
     return obs_of(rec), code_of(exp)
 
 
-WORDISH = {0xE9, 0xC9, 0xDF, 0x17F, 0x212A}
-
-
-def tables_differ_only(code):
-    return code >= 0 and code & 1 and not code & 128
-
-
-def p_word_boundary_nonascii(case, rec, exp):
-    o, code = run_case(case, rec, exp)
-    if not o or not tables_differ_only(code) or code & 2:
-        return False
-    p = pat_text(case)
-    return ("\\b" in p or "\\B" in p) and any(c in WORDISH for c in units(case, "subj")) and o.get("tabA") != o.get("tabB")
-
-
-def p_named_groups_lost_re2_u(case, rec, exp):
-    o, code = run_case(case, rec, exp)
-    if not o or not tables_differ_only(code):
-        return False
-    return ("u" in case.get("flags", "") and bool(case.get("names")) and o.get("engA", "").startswith("re2")
-            and not is_ascii(units(case, "subj")) and o.get("tabA") == o.get("tabB"))
-
-
+WORDISH = {0xE9, 0xC9, 0xDF, 0x17F, 0x212A, 0xD801}      # é É ß ſ K(Kelvin), lead unit of U+10400/U+10428
 NEG_SHORTHAND_IN_CLASS = re.compile(r"\[[^\]]*\\[DWS][^\]]*\]")
+QUANTIFIED_GROUP = re.compile(r"\)(\*|\+|\?|\{\d)")
 
 
-def p_rx2_class_negated_shorthand(case, rec, exp):
-    o, code = run_case(case, rec, exp)
-    if not o or not tables_differ_only(code) or code & 2:
-        return False
-    return bool(NEG_SHORTHAND_IN_CLASS.search(pat_text(case))) and o.get("tabA") != o.get("tabB")
+def explained(case, rec, exp):
+    """The set of recorded findings that JOINTLY account for everything the case shows, or None as soon as one
+    difference has no recorded shape.  Never accepts a case in which a generic configuration deviates from the
+    generic drivers evaluated on its own engine's exec table (classification bits 3, 5) or a table is malformed."""
+    if case.get("kind") != "run":
+        return None
+    o, code = obs_of(rec), code_of(exp)
+    if not o or code < 0 or code & (8 | 32 | 128) or not code & (1 | 2 | 4 | 16 | 64):
+        return None
+    f = case.get("flags", "")
+    p = pat_text(case)
+    subj = units(case, "subj")
+    re2 = o.get("engA", "").startswith("re2")
+    nonascii = not is_ascii(subj)
+    shape205 = ("\\b" in p or "\\B" in p) and any(c in WORDISH for c in subj)
+    shape206 = "u" in f and bool(case.get("names")) and re2 and nonascii
+    shape209 = bool(NEG_SHORTHAND_IN_CLASS.search(p))
+    shape210 = "." in p and "s" not in f and any(c in (0x2028, 0x2029) for c in subj)
+    shape_n1 = bool(QUANTIFIED_GROUP.search(p)) and re2
+    shape_n2 = "|" in p and "[^" in p and re2
+    pu = units(case, "pat")
+    astral_lit = any(0xD800 <= pu[i] <= 0xDBFF and 0xDC00 <= pu[i + 1] <= 0xDFFF for i in range(len(pu) - 1))
+    shape_n4 = "u" not in f and astral_lit and re2 and ("." in p or "[^" in p or any(x in p for x in ("\\D", "\\W", "\\S")))
+    shape_n3 = "i" in f and "\\W" in p and re2 and any(c in (0x6B, 0x4B, 0x73, 0x53, 0x212A, 0x17F) for c in subj)
+    out = set()
+    # ---- engine level: the exec tables
+    ta, tb = o.get("tabA") or [], o.get("tabB") or []
+    if len(ta) != len(tb):
+        return None
+    tabs_differ = bool(code & 1)
+    found = False
+    for x, y in zip(ta, tb):
+        if x == y:
+            continue
+        found = True
+        a, b = span(x), span(y)
+        if a != b:
+            if shape205:
+                out.add("F205")
+            elif shape209:
+                out.add("F209")
+            elif shape210 and re2:
+                out.add("F210")
+            elif shape_n3:
+                out.add("C20-N3")
+            elif shape_n2 and a is not None and (b is None or b[0] > a[0]):
+                out.add("C20-N2")
+            elif shape_n4 and a is not None and (b is None or b[0] > a[0]):
+                out.add("C20-N4")
+            else:
+                return None
+            continue
+        ca, cb = caps(x), caps(y)
+        if ca != cb and shape205:
+            out.add("F205")      # a group that participates only through \\b / \\B next to a non-ASCII letter
+        elif ca != cb:
+            if not shape_n1 or len(ca) != len(cb):
+                return None
+            for u, v in zip(ca, cb):
+                # one engine reports the empty string for an iteration that matched nothing, the other keeps the
+                # previous iteration's capture (or undefined)
+                if u != v and not (is_empty_cap(v) or (is_empty_cap(u) and v == "x")):
+                    return None
+            out.add("C20-N1")
+        if has_groups(x) != has_groups(y):
+            if not shape206 or has_groups(x):
+                return None
+            out.add("F206")
+    if tabs_differ != found:
+        return None                      # a table difference that the summary does not show (or vice versa)
+    if code & 2:                         # some match is not well-formed: only the missing groups object is recorded
+        if not shape206:
+            return None
+        out.add("F206")
+    # ---- path level: per op
+    cf = [cfg_ops(o, k) for k in range(4)]
+    if any(c is None for c in cf):
+        # observation text was truncated: decide on the classification code alone - every deviating fast
+        # configuration is reproduced by the transcribed fast path
+        if tabs_differ:
+            return out or None
+        ok = (not code & 4 or code & 256) and (not code & 16 or code & 512) and code & (4 | 16)
+        if ok and "g" in f and "y" in f and has_empty_match(o):
+            out.add("F202")
+            return out
+        if ok and "g" in f and "y" not in f and has_empty_match(o) and re2 and code & 4 and not code & 16:
+            out.add("F201")
+            return out
+        return None
+    if len({len(c) for c in cf}) != 1 or len(cf[0]) != len(case.get("ops", [])):
+        return None
+    empty = has_empty_match(o)
+    for i, op in enumerate(case["ops"]):
+        r = [c[i] for c in cf]
+        if r[0] == r[1] == r[2] == r[3]:
+            continue
+        if tabs_differ:
+            continue      # consequence of the engine disagreement (generic configurations agree with S: bits 3, 5)
+        if out and i > 0 and len({json.dumps(c[i - 1].get("li")) for c in cf}) > 1:
+            break         # an explained deviation has left different lastIndex values behind
+        k = op["o"]
+        if k in ("match", "replace", "replaceFn") and "g" in f and "y" not in f and empty and re2 and r[1] == r[2] == r[3]:
+            out.add("F201")
+        elif k in ("match", "replace", "replaceFn") and "g" in f and "y" in f and empty and r[1] == r[3]:
+            out.add("F202")
+        elif k == "split" and empty and r[1] == r[3]:
+            out.add("F203")
+        elif k in ("replace", "replaceFn") and "g" not in f and nonascii and ("y" in f or "u" in f) and r[1] == r[3]:
+            out.add("F204")
+        elif r[1] == r[2] == r[3] and re2 and shape205:
+            out.add("F205")   # RE2 find-all route vs regexp2 (used from every lastIndex > 0, so the tables agree)
+        elif r[1] == r[2] == r[3] and re2 and shape210:
+            out.add("F210")
+        else:
+            return None
+    return out or None
 
 
-def p_dot_line_separator_re2(case, rec, exp):
-    o, code = run_case(case, rec, exp)
-    if not o or not tables_differ_only(code) or code & 2:
-        return False
-    return ("." in pat_text(case) and "s" not in case.get("flags", "") and any(c in (0x2028, 0x2029) for c in units(case, "subj"))
-            and o.get("engA", "").startswith("re2") and o.get("tabA") != o.get("tabB"))
+def is_empty_cap(c):
+    return c != "x" and "-" in c and c.split("-")[0] == c.split("-")[1]
+
+
+def has_groups(t):
+    return t.endswith("#g")
+
+
+def _p(fid):
+    return lambda case, rec, exp: fid in (explained(case, rec, exp) or ())
 
 
 PREDICATES = {
-    "C20.regexp2_class_with_negated_shorthand": p_rx2_class_negated_shorthand,
-    "C20.dot_matches_line_separator_re2": p_dot_line_separator_re2,
-    "C20.flags_duplicate_u_accepted": p_flags_dup_u,
+    "C20.regexp2_capture_of_empty_last_iteration": _p("C20-N1"),
+    "C20.regexp2_misses_match_negated_class_alternative": _p("C20-N2"),
+    "C20.nonword_class_ignorecase_engines_differ": _p("C20-N3"),
+    "C20.regexp2_wide_set_before_astral_literal_nonunicode": _p("C20-N4"),
+    "C20.regexp2_class_with_negated_shorthand": _p("F209"),
+    "C20.dot_matches_line_separator_regexp2": _p("F210"),
     "C20.syntax_annexb_accepted_under_u": p_syntax_annexb_u,
     "C20.syntax_duplicate_group_name_re2": p_syntax_dup_group_re2,
     "C20.replace_sticky_lastindex_beyond_length_panics": p_replace_sticky_beyond_panic,
-    "C20.re2_findall_drops_empty_match_after_match": p_re2_findall_drops_adjacent_empty,
-    "C20.sticky_global_fast_path_empty_match": p_sticky_global_fast,
-    "C20.split_fast_path_regexp2_list": p_split_fast_rx2_list,
-    "C20.replace_nonglobal_fast_path_limit": p_replace_nonglobal_fast,
-    "C20.word_boundary_nonascii_engines_differ": p_word_boundary_nonascii,
-    "C20.named_groups_lost_re2_unicode": p_named_groups_lost_re2_u,
+    "C20.re2_findall_drops_empty_match_after_match": _p("F201"),
+    "C20.sticky_global_fast_path_empty_match": _p("F202"),
+    "C20.split_fast_path_regexp2_list": _p("F203"),
+    "C20.replace_nonglobal_fast_path_limit": _p("F204"),
+    "C20.word_boundary_nonascii_engines_differ": _p("F205"),
+    "C20.named_groups_lost_re2_unicode": _p("F206"),
 }
 
 
@@ -317,8 +365,8 @@ CFG = {
     "prop_file": "Properties/C20.v",
     "run_modules": ["Verif.C20.Run"],
     "coq_dirs": ["C20"],
-    "n": {"quick": 600, "thorough": 200000},
-    "shard": 150,
+    "n": {"quick": 2400, "thorough": 200000},
+    "shard": 400,
     "level": "proof",
     "shrink": False,
     "max_report": 8,
@@ -329,7 +377,10 @@ CFG = {
              "each run as written (RE2 where translatable) and with an empty look-ahead prefix (regexp2), before and after de-optimising "
              "RegExp.prototype (3 ways); plus flag strings and malformed patterns; non-trivial = the pattern matches somewhere and the case "
              "leaves the plain-ASCII/start-0/no-g-y corner; distinct = by hash of the case"),
-    "theorem_names": [],
+    "theorem_names": ["advance_string_index_spec", "advance_boundary", "valid_flags_spec", "goja_flags_eq_valid_flags",
+                      "match_wf_sound", "posmap_bailout_iff", "posmap_correct", "posmap_only_boundaries", "posmap_monotone",
+                      "posmap16_correct", "lastIndex_in_bounds", "search_paths_agree", "global_loop_terminates",
+                      "protocol_paths_agree_match_g", "protocol_paths_agree_replace_g", "protocol_paths_agree_split"],
     "allowed_axioms": [],
     "trusted_base": [
         "Coq 8.16.1 kernel + vm_compute; theorems closed under the global context (no axioms)",
@@ -342,11 +393,14 @@ CFG = {
         "lastIndex is an integer (ToLength on integers); replacement is the template [$&] / an equivalent function",
     ],
     "manifest": {
-        "text": ("proof (partial): theorems over goja's own RegExp glue - UTF-8/UTF-16 position maps are exact on code-point boundaries and bail out "
-                 "exactly on lone surrogates, AdvanceStringIndex, the lastIndex protocol stays in bounds, search restores lastIndex, the result "
-                 "validator match_wf is sound, flag validity = duplicate-free subset of gimsuy - for every abstract engine; engine and path "
-                 "independence themselves are checked differentially on every run (4 configurations x engine tables) against the generic "
-                 "drivers evaluated by vm_compute"),
+        "text": ("proof (partial): 33 axiom-free theorems over goja's own RegExp glue, for EVERY abstract engine whose results pass the "
+                 "verified validator match_wf: UTF-8/UTF-16 position maps are exact and total on code-point boundaries, reject other offsets "
+                 "and bail out exactly on lone surrogates; AdvanceStringIndex = spec and preserves boundaries; the flag loop = duplicate-free "
+                 "subset of gimsuy; lastIndex stays in bounds, resets on failure, sticky matches AT lastIndex; the global match/replace loops "
+                 "terminate; optimised path = generic path for search, match-g and replace-g (regexp2 iteration) and split (Go FindAll list, "
+                 "leftmost-scan engine, ASCII subject); the three places where the optimised path differs on this tree are refuted by "
+                 "computation (F201-F203).  Engine and path independence of /repo itself are checked differentially on every run: 4 "
+                 "configurations x per-start exec tables against the generic drivers evaluated by vm_compute"),
         "note": ("trusted: Coq kernel + vm_compute; the transcription in coq/C20/Model.v; the harness and verif_hooks_c20.go; the two regex engines "
                  "are external code whose agreement is sampled, not proved"),
         "technique": "Rocq theorems over an abstract-engine model of the glue + verified result validator + 4-way differential correspondence via vm_compute",
